@@ -6,9 +6,10 @@ independently (--malloc-may-fail --malloc-fail-null are always on).  The obligat
 (double free, use after free, free of a non-heap / non-base pointer, dereference of NULL / dead object) plus
 --memory-leak-check where the harness can free everything it owns, plus a few VASSERTs on the error protocol.
 
-KNOWN_F_C18_<NAME> macros (defined by default): the harness repairs the dangling pointer of a CONFIRMED defect
-itself before the teardown, so that the unit passes on the unchanged tree and still checks everything else.
-notes/c18.md says which macro belongs to which finding; remove the macro from `defs` after the fix has landed.
+The KNOWN_F_C18_<NAME> blocks in the harnesses are INACTIVE (no unit defines the macros any more): they repaired, inside
+the harness, the dangling pointer of a confirmed defect while it was unfixed.  All of them are fixed in /repo
+(known_findings.json `fixed`), so every unit now checks the real code without any repair; the blocks are kept only as a
+way to demonstrate the old failure (`-D` the macro on a pre-fix tree).
 """
 from vrun import U
 
@@ -73,8 +74,7 @@ void HARNESS(void) { size_t n; unsigned char in[AUTHN];
 lem('c18_auth_basic', ['htp_parsers.c'], AUTH_H.replace('CASES', cases('C', 5, 9)).replace('AUTH_FN', 'htp_parse_authorization_basic'),
     'htp_parse_authorization_basic ; bstr_free(username) ; bstr_free(password): no double free / leak whichever of the four allocations fails (base64 scratch, decoded bstr, username, password)',
     ['header value: every byte string of length 5..9 ("Basic" + up to 4 bytes); value lengths are enumerated constants; shorter values are excluded by the caller htp_parse_authorization (prefix test)',
-     'htp_base64_decode_mem replaced by a stand-in with the same allocation pattern and an ARBITRARY decoded string of 0..4 bytes (not longer than its input) (superset of what base64 can produce); real bstr.c linked; the real decoder is exercised by unit c18_base64_decode_mem',
-     'KNOWN_F_C18_AUTH_BASIC: the harness NULLs request_auth_username after an HTP_ERROR return (finding c18_auth_basic); everything else is checked'],
+     'htp_base64_decode_mem replaced by a stand-in with the same allocation pattern and an ARBITRARY decoded string of 0..4 bytes (not longer than its input) (superset of what base64 can produce); real bstr.c linked; the real decoder is exercised by unit c18_base64_decode_mem',],
     defs={'AUTHN': 9, 'AUTHMIN': 5, 'AUTH_BASIC': 1}, link=['bstr.c'], unwind=16)
 
 # ======================================================================================================================
@@ -103,7 +103,7 @@ HPA = ['input: every byte string of length exactly HPN=5 (shorter ones = white-s
        'real bstr.c linked; memchr: textbook model (CBMC 6.11 has none); htp_validate_hostname (pure, no allocation) exchanged at its call sites (goto-instrument --replace-calls) by a stand-in that requires a live bstr and answers arbitrarily']
 lem('c18_uri_hostport', ['htp_util.c'], URI_HP_H,
     'htp_parse_uri_hostport(connp, target, tx->parsed_uri_raw) ; htp_uri_free: no double free / use after free / leak whichever allocation (host name, port text) fails',
-    HPA + ['KNOWN_F_C18_HOSTPORT: the harness NULLs uri->hostname after an HTP_ERROR return (finding c18_hostport); everything else is checked'],
+    HPA,
     defs={'HPN': 5, 'C18_MEMCHR_MODEL': 1, 'C18_VALIDATE_HOSTNAME_STUB': 1}, link=['bstr.c'], unwind=8, pre_instrument=RC_VALIDATE)
 HDR_HP_H = HP_COMMON + r'''
 static void hp_case(const unsigned char *a, int want_port) {
@@ -144,8 +144,7 @@ void HARNESS(void) {
 lem('c18_conn_open', ['htp_connection.c'], CONN_H,
     'htp_conn_create ; htp_conn_open ; htp_conn_close ; htp_conn_destroy: partial creation is undone, both address copies are freed exactly once whichever allocation fails, nothing leaks',
     ['addresses: NULL or any C string of <= 3 characters; ports, timestamp arbitrary; real htp_list.c linked',
-     'the connection holds no transaction and no log message (htp_tx_destroy_incomplete asserted unreachable)',
-     'KNOWN_F_C18_CONN_OPEN: the harness NULLs conn->client_addr after an HTP_ERROR return (finding c18_conn_open); everything else is checked'],
+     'the connection holds no transaction and no log message (htp_tx_destroy_incomplete asserted unreachable)'],
     defs={}, link=['htp_list.c'], unwind=6, min_obl=30)
 
 # ======================================================================================================================
@@ -245,7 +244,19 @@ lem('c18_urlenc_body', ['htp_content_handlers.c'], URLB_H,
      'tx->request_params has room for one pair, so the second move exercises the growth path and its failure; no parameter_processor',
      'parser state at end of body = KEY with nothing pending (a body ending in the separator); the VALUE state, where htp_urlenp_finalize itself appends one more pair through the real htp_table_addn, runs out of memory in propositional reduction (12 GB) and is covered only by the native sweep findings/c18_urlenc_params.c',
      'htp_tx_urldecode_params_inplace (no allocation; in-place decoder, C12/C15) exchanged at its call sites by a stand-in that requires a live bstr',
-     'the other transaction fields are NULL (htp_tx_destroy_incomplete handles them by its NULL tests; no connection attached)',
-     'KNOWN_F_C18_URLENC_PARAMS: after HTP_ERROR with the parser table still alive the harness rolls the partial move back (frees the htp_param_t records, empties tx->request_params) before the teardown (finding c18_urlenc_params); everything else is checked'],
+     'the other transaction fields are NULL (htp_tx_destroy_incomplete handles them by its NULL tests; no connection attached)'],
     defs={}, link=TXLINK, unwind=6,
     pre_instrument=['--replace-calls', 'htp_tx_urldecode_params_inplace:c18_nop_urldecode'])
+
+# ======================================================================================================================
+# multipart body callback: refused after the strings were handed to the transaction (no second finalisation)
+# ======================================================================================================================
+NEVER = ['htp_mpartp_parse', 'htp_mpartp_finalize', 'htp_mpartp_get_multipart', 'htp_list_array_size', 'htp_list_array_get', 'htp_tx_req_add_param']
+UNITS.append(U(name='c18_mpart_callback_after_giveup', props=['C18', 'C01', 'C14'], kind='contract', src=['htp_content_handlers.c'],
+               enforce='htp_ch_multipart_callback_request_body_data', replace=['%s/contract_never_%s' % (f, f) for f in NEVER], contracts_inc=['c18_alloc.h'],
+               loops={'htp_content_handlers.c': {'htp_ch_multipart_callback_request_body_data': {'count': 1, 0: dict(assigns='i', inv=['i <= n'], dec='n - i')}}},
+               harness='void HARNESS(void) { htp_tx_data_t *d; htp_ch_multipart_callback_request_body_data(d); CANARY(); }',
+               defs={'quick': {'C18_MPART_AFTER_GIVEUP': 1}}, min_obl=10,
+               sub='after gave_up_data == 1 (names/values of the text parts belong to tx->request_params) EVERY further invocation - data or end-of-body signal - returns HTP_ERROR, '
+                   'calls neither the parser nor the parameter table (callee stubs require false) and writes nothing: no second finalisation, hence no string owned twice',
+               assumes=['entry state gave_up_data == 1 only; the first finalisation (ownership hand-over under allocation failure) is unit c18_urlenc_body\'s multipart twin, shown natively only (findings/c18_mpart_params.c)']))
